@@ -31,6 +31,42 @@ CONFIGS = {
 }
 
 
+# DTLS 1.2 / 1.0 sessions (`dtls=1`; minor 3 = DTLS 1.2, 2 = DTLS 1.0).  Kept apart from CONFIGS: C18 enumerates CONFIGS for its
+# TLS chunking runs.  DTLS 1.0 is enabled in the default configuration (USE_TLS_1_1_AND_ABOVE + USE_DTLS).
+DTLS_CONFIGS = {
+    "dtls12": "cv=3 sv=3 dtls=1",                                   # ECDHE-RSA-AES128-GCM (AEAD)
+    "dtls12_cbc": "cv=3 sv=3 dtls=1 suite=c027",                    # ECDHE-RSA-AES128-CBC-SHA256
+    "dtls12_cauth": "cv=3 sv=3 dtls=1 cauth=1 scb=1",
+    "dtls12_resumed_id": "cv=3 sv=3 dtls=1 | resume=1 keepkeys=1",
+    "dtls10": "cv=2 sv=2 dtls=1",                                   # DTLS 1.0: CBC-SHA suites only
+    "dtls12_rsa": "cv=3 sv=3 dtls=1 suite=003c",
+    "dtls12_ec": "cv=3 sv=3 dtls=1 key=ec suite=c02b",
+    "dtls12c_10s": "cv=2,3 sv=2 dtls=1",                            # a DTLS 1.2 client taken down to DTLS 1.0
+}
+ALL_CONFIGS = dict(CONFIGS); ALL_CONFIGS.update(DTLS_CONFIGS)
+
+def is_dtls(cfg):
+    return "dtls=1" in cfg
+
+def wire_version(cfg):
+    """record-header version bytes of the version this configuration negotiates (TLS 1.3 keeps 03 03 on the wire)"""
+    first = cfg.split("|")[0]
+    def minors(k):
+        m = re.search(r"\b%s=([\d,]+)" % k, first)
+        return [int(x) for x in m.group(1).split(",")] if m else [2, 3, 4]
+    common = [v for v in minors("cv") if v in minors("sv")]
+    neg = max(common) if common else 3
+    if is_dtls(cfg):
+        return (0xfe, 0xfd) if neg >= 3 else (0xfe, 0xff)
+    return (3, 3) if neg >= 3 else (3, neg)
+
+
+def script_version(script):
+    """negotiated record version of the (last) session a script creates"""
+    news = [c for c in script.split(" ; ") if c.startswith("new ")]
+    return wire_version(news[-1][4:]) if news else (3, 3)
+
+
 def newcmd(cfg, seed):
     """script prefix that creates the session(s) of a configuration"""
     if "|" in cfg:
@@ -38,7 +74,8 @@ def newcmd(cfg, seed):
         return "new %s seed=%d ; hs ; new %s %s seed=%d" % (first, seed, first, second, seed + 1000)
     return "new %s seed=%d" % (cfg, seed)
 
-SNAP_RE = re.compile(r"v=(\d),sv=(\d),hs=(\d+),f=([ECRW]*),done=(\d),err=(\d+),ed=(\d+):(\d+):(\d+),lb=(\d),ig=(-?\d+),ce=(\d),se=(\d),ae=(\d),bs=(\d+),ms=(\d+),cl=(\d),np=(\d)")
+SNAP_RE = re.compile(r"v=(\d),sv=(\d),hs=(\d+),f=([ECRW]*),done=(\d),err=(\d+),ed=(\d+):(\d+):(\d+),lb=(\d),ig=(-?\d+),ce=(\d),se=(\d),ae=(\d),bs=(\d+),ms=(\d+),cl=(\d),np=(\d)"
+                     r"(?:,dt=1,xe=(\d+),pc=(\d),ax=(\d),lr=(\d+),bm=([0-9a-f]+),fd=(\d),ol=(\d+),we=(\d+),rs=(\d),ca=(\d))?")
 
 def parse_snap(s):
     m = SNAP_RE.match(s)
@@ -47,11 +84,15 @@ def parse_snap(s):
     g = m.groups()
     return {"v": int(g[0]), "sv": int(g[1]), "hs": int(g[2]), "E": "E" in g[3], "C": "C" in g[3], "R": "R" in g[3], "W": "W" in g[3],
             "done": int(g[4]), "err": int(g[5]), "edskip": int(g[6]), "edseen": int(g[7]), "edmax": int(g[8]), "lb": int(g[9]),
-            "ig": int(g[10]), "ce": int(g[11]), "se": int(g[12]), "ae": int(g[13]), "bs": int(g[14]), "ms": int(g[15]), "cl": int(g[16]), "np": int(g[17])}
+            "ig": int(g[10]), "ce": int(g[11]), "se": int(g[12]), "ae": int(g[13]), "bs": int(g[14]), "ms": int(g[15]), "cl": int(g[16]), "np": int(g[17]),
+            # DTLS sessions only: expected epoch, parsedCCS, appDataExch, replay window, flightDone, pending output, write epoch, resumed, client auth
+            "dt": 1 if g[18] is not None else 0, "xe": int(g[18] or 0), "pc": int(g[19] or 0), "ax": int(g[20] or 0), "lr": int(g[21] or 0),
+            "bm": int(g[22] or "0", 16), "fd": int(g[23] or 0), "ol": int(g[24] or 0), "we": int(g[25] or 0), "rs": int(g[26] or 0), "ca": int(g[27] or 0)}
 
 def st_fields(p):
-    return "%d %d %d %d %d %d %d %d %d %d %d %d %d %d %d %d" % (p["v"], p["sv"], p["hs"], p["R"], p["W"], p["E"], p["C"], p["edskip"], p["edseen"],
-                                                                p["edmax"], p["lb"], p["ig"], p["ce"], p["se"], p["cl"], p["np"])
+    return "%d %d %d %d %d %d %d %d %d %d %d %d %d %d %d %d %d %d %d %d" % (p["v"], p["sv"], p["hs"], p["R"], p["W"], p["E"], p["C"], p["edskip"], p["edseen"],
+                                                                            p["edmax"], p["lb"], p["ig"], p["ce"], p["se"], p["cl"], p["np"],
+                                                                            p["dt"], p["xe"], p["pc"], p["ax"])
 
 class Step:
     """one delivery of bytes to a side, as logged by h_sess"""
@@ -77,10 +118,12 @@ class Step:
             return "AlertOut:%d" % self.post["err"]
         if self.errs and not self.sent:
             return "Refuse"
+        if "RESEND " in self.body:
+            return "Resend"       # DTLS_RETRANSMIT: MATRIXSSL_REQUEST_SEND with nothing encoded
         return None   # Handshake / Ignored decided with the record type
 
 STEP_RE = re.compile(r"(step|inj|replay):([cs]) pre=(\S+) (.*?)post=(\S+)")
-META_RE = re.compile(r"\[o=(\d+) i=(-?\d+) s=(-?\d+) l=(\d+) b=([0-9a-f]{4})(?: e=(\d))?\]")
+META_RE = re.compile(r"\[o=(\d+) i=(-?\d+) s=(-?\d+) l=(\d+) b=([0-9a-f]{4})(?: e=(\d))?(?: ep=(\d+) sq=(\d+) dg=(\d) vr=([0-9a-f]{4}))?\]")
 
 def parse_steps(segment):
     out = []
@@ -91,6 +134,8 @@ def parse_steps(segment):
         if mm:
             meta = {"o": int(mm.group(1)), "i": int(mm.group(2)), "s": int(mm.group(3)), "l": int(mm.group(4)),
                     "b0": int(mm.group(5)[:2], 16), "b1": int(mm.group(5)[2:], 16), "e": int(mm.group(6) or 0)}
+            if mm.group(7) is not None:       # DTLS record: epoch, sequence number (low 32 bits), last record of its datagram
+                meta.update({"ep": int(mm.group(7)), "sq": int(mm.group(8)), "dg": int(mm.group(9)), "vr": (int(mm.group(10)[:2], 16), int(mm.group(10)[2:], 16))})
         out.append(Step(kind, side, parse_snap(pre), parse_snap(post), body, meta))
     return out
 
@@ -98,23 +143,91 @@ def parse_steps(segment):
 def rec_bytes(t, body, ver=(3, 3)):
     return bytes([t, ver[0], ver[1], len(body) >> 8, len(body) & 255]) + body
 
-def attacker_records(r):
-    """(name, raw bytes, abstract description dict) - everything an attacker without keys can make"""
+def drec_bytes(t, body, ver, ep, sq, length=None):
+    """DTLS record: type, version, epoch(2), sequence number(6), length(2), body"""
+    n = len(body) if length is None else length
+    return bytes([t, ver[0], ver[1], ep >> 8, ep & 255]) + int(sq).to_bytes(6, "big") + bytes([n >> 8, n & 255]) + body
+
+ATTACKER_KINDS = [
+    # name, record type, body, abstract description
+    ("plain_app", 23, b"hello", dict(hdr="ok", outer=23, prot="plain", inner=23, l=5)),
+    ("plain_app_long", 23, bytes(range(64)), dict(hdr="ok", outer=23, prot="plain", inner=23, l=64)),
+    ("plain_alert_fatal", 21, bytes([2, 40]), dict(hdr="ok", outer=21, prot="plain", inner=21, lvl=2, desc=40, l=2)),
+    ("plain_alert_fatal_noreneg", 21, bytes([2, 100]), dict(hdr="ok", outer=21, prot="plain", inner=21, lvl=2, desc=100, l=2)),   # a fatal alert kills whatever its description
+    ("plain_alert_warn", 21, bytes([1, 90]), dict(hdr="ok", outer=21, prot="plain", inner=21, lvl=1, desc=90, l=2)),
+    ("plain_close_notify", 21, bytes([1, 0]), dict(hdr="ok", outer=21, prot="plain", inner=21, lvl=1, desc=0, l=2)),
+    ("long_alert", 21, bytes([2, 40]) + bytes(20), dict(hdr="ok", outer=21, prot="plain", inner=21, lvl=2, desc=40, l=22)),
+    ("ccs", 20, b"\x01", dict(hdr="ok", outer=20, prot="plain", inner=20, ccs_ok=1, l=1)),
+    ("ccs_bad", 20, b"\x02", dict(hdr="ok", outer=20, prot="plain", inner=20, ccs_ok=0, l=1)),
+    ("bad_type", 99, b"abc", dict(hdr="type", outer=99, prot="plain", inner=99, l=3)),
+    ("bad_len0", 23, b"", dict(hdr="len", outer=23, prot="plain", inner=23, l=0)),
+    ("bad_len_big", 23, None, dict(hdr="len", outer=23, prot="plain", inner=23, l=65535)),        # header only, length field ff ff
+    ("garbage_sealed", 23, bytes((7 * i + 3) & 255 for i in range(40)), dict(hdr="ok", outer=23, prot="bad", inner=23, l=40)),
+    ("garbage_hs", 22, bytes([99, 0, 0, 4, 1, 2, 3, 4]), dict(hdr="ok", outer=22, prot="plain", inner=22, l=8)),
+]
+
+def other_version(ver):
+    """a RECOGNISED record version different from the negotiated one (psVerFromEncodingMajMin knows it)"""
+    if ver[0] == 0xfe:
+        return (0xfe, 0xff) if ver == (0xfe, 0xfd) else (0xfe, 0xfd)
+    return (3, 2) if ver == (3, 3) else (3, 3)
+
+def attacker_records(cfg):
+    """(name, raw bytes, abstract description dict) - everything an attacker without keys can make, framed with the record
+    version the configuration negotiates (validateRecordHdrVersion refuses any other version once the version is negotiated).
+    `wrong_version` is the explicit exception: its description says hdr="ver?", resolved per state by version_tolerant()."""
+    ver = wire_version(cfg) if cfg else (3, 3)
     A = []
-    A.append(("plain_app", rec_bytes(23, b"hello"), dict(hdr="ok", outer=23, prot="plain", inner=23, l=5)))
-    A.append(("plain_app_long", rec_bytes(23, bytes(range(64))), dict(hdr="ok", outer=23, prot="plain", inner=23, l=64)))
-    A.append(("plain_alert_fatal", rec_bytes(21, bytes([2, 40])), dict(hdr="ok", outer=21, prot="plain", inner=21, lvl=2, desc=40, l=2)))
-    A.append(("plain_alert_warn", rec_bytes(21, bytes([1, 90])), dict(hdr="ok", outer=21, prot="plain", inner=21, lvl=1, desc=90, l=2)))
-    A.append(("plain_close_notify", rec_bytes(21, bytes([1, 0])), dict(hdr="ok", outer=21, prot="plain", inner=21, lvl=1, desc=0, l=2)))
-    A.append(("long_alert", rec_bytes(21, bytes([2, 40]) + bytes(20)), dict(hdr="ok", outer=21, prot="plain", inner=21, lvl=2, desc=40, l=22)))
-    A.append(("ccs", rec_bytes(20, b"\x01"), dict(hdr="ok", outer=20, prot="plain", inner=20, ccs_ok=1, l=1)))
-    A.append(("ccs_bad", rec_bytes(20, b"\x02"), dict(hdr="ok", outer=20, prot="plain", inner=20, ccs_ok=0, l=1)))
-    A.append(("bad_type", rec_bytes(99, b"abc"), dict(hdr="type", outer=99, prot="plain", inner=99, l=3)))
-    A.append(("bad_len0", rec_bytes(23, b""), dict(hdr="len", outer=23, prot="plain", inner=23, l=0)))
-    A.append(("bad_len_big", bytes([23, 3, 3, 0xff, 0xff]), dict(hdr="len", outer=23, prot="plain", inner=23, l=65535)))
-    A.append(("garbage_sealed", rec_bytes(23, bytes((7 * i + 3) & 255 for i in range(40))), dict(hdr="ok", outer=23, prot="bad", inner=23, l=40)))
-    A.append(("garbage_hs", rec_bytes(22, bytes([99, 0, 0, 4, 1, 2, 3, 4])), dict(hdr="ok", outer=22, prot="plain", inner=22, l=8)))
+    for name, t, body, d in ATTACKER_KINDS:
+        raw = bytes([t, ver[0], ver[1], 0xff, 0xff]) if body is None else rec_bytes(t, body, ver)
+        A.append((name, raw, dict(d)))
+    A.append(("wrong_version", rec_bytes(21, bytes([1, 90]), other_version(ver)),
+              dict(hdr="ver?", outer=21, prot="plain", inner=21, lvl=1, desc=90, l=2)))
     return A
+
+def version_tolerant(pre):
+    """validateRecordHdrVersion (sslDecode.c 85-179): the record version is compared with the negotiated one only when
+    hsState != SSL_HS_CLIENT_HELLO and version negotiation is complete; TLS 1.3 ignores it.  The negotiated bit is set by the
+    ClientHello / ServerHello handlers, i.e. it is clear exactly while a server still expects ClientHello (hsState 1) and while a
+    client still expects ServerHello (hsState 2; also after a DTLS HelloVerifyRequest)."""
+    if pre["v"] == 1:
+        return True
+    return pre["hs"] == 1 if pre["sv"] else pre["hs"] == 2
+
+DTLS_EPSQ_KINDS = ("plain_app", "plain_alert_fatal", "plain_close_notify", "ccs", "garbage_sealed", "garbage_hs")
+
+def dtls_attacker_records(cfg, xe, lr, full=True):
+    """DTLS framing of the attacker records for a receiver whose expected epoch is xe and whose replay window ends at lr.
+    Every kind with (current epoch, fresh sequence number); the kinds of DTLS_EPSQ_KINDS additionally with every other
+    combination of epoch in {0, current, current+1} and sequence number in {fresh, replayed, far ahead}; plus a record longer
+    than its datagram and a wrong-version record.  Whether a sequence number is fresh or a duplicate is decided at analysis
+    time from the receiver's window (win_fresh)."""
+    ver = wire_version(cfg)
+    seqs = (("fresh", lr + 1), ("replayed", lr), ("far", lr + 1000))
+    eps = sorted(set((0, xe, xe + 1)))
+    A = []
+    for name, t, body, d in ATTACKER_KINDS:
+        for ep in eps:
+            for sn, sq in seqs:
+                main = (ep == xe and sn == "fresh")
+                if not main and not (full and name in DTLS_EPSQ_KINDS):
+                    continue
+                dd = dict(d); dd["ep"] = ep; dd["sq"] = sq
+                raw = drec_bytes(t, b"", ver, ep, sq, 0xffff) if body is None else drec_bytes(t, body, ver, ep, sq)
+                A.append(("%s@e%s/%s" % (name, "cur" if ep == xe else ("0" if ep == 0 else "next"), sn), raw, dd))
+    A.append(("truncated@ecur/fresh", drec_bytes(23, b"0123456789", ver, xe, lr + 1, 100),
+              dict(hdr="trunc", outer=23, prot="plain", inner=23, l=100, ep=xe, sq=lr + 1)))
+    A.append(("wrong_version@ecur/fresh", drec_bytes(21, bytes([1, 90]), other_version(ver), xe, lr + 1),
+              dict(hdr="ver?", outer=21, prot="plain", inner=21, lvl=1, desc=90, l=2, ep=xe, sq=lr + 1)))
+    return A
+
+def win_fresh(lr, bm, sq, width=32):
+    """RFC 6347 4.1.2.6 sliding window: is sequence number sq new for a window whose right edge is lr with bitmap bm?"""
+    sq &= 0xffffffff
+    if sq > lr:
+        return True
+    d = lr - sq
+    return d < width and not (bm >> d) & 1
 
 def dec_line(pre, d, oracle):
     """model case for one step; d: abstract record description"""
@@ -124,9 +237,10 @@ def dec_line(pre, d, oracle):
     tot = d.get("l", 0)
     # <= TLS 1.2: AEAD tag failure or CBC length not a block multiple (past the length sanity check) fail in decrypt() itself
     decfail = 1 if (d["prot"] != "good" and (pre["ae"] or (pre["bs"] > 1 and tot >= pre["ms"] + 1 + pre["bs"] and tot % pre["bs"] != 0))) else 0
-    return "dec %s %s %d %d %s %d %d %d %d %d %d %d %d %d %s %d %d %d %d %d %d" % (
+    return "dec %s %s %d %d %s %d %d %d %d %d %d %d %d %d %d %s %s %d %d %d %d %d %d" % (
         st_fields(pre), d.get("hdr", "ok"), o, short, d["prot"], d.get("inner", o), d.get("ccs_ok", 1), d.get("alert_ok", 1),
         d.get("lvl", 0), d.get("desc", 0), d.get("overflow", 0), d.get("empty", 0), d.get("rlen", (d.get("l", 0) - 17) if d.get("l", 0) >= 17 else -1), decfail,
+        d.get("ep", 0), d.get("replay", "fresh"),
         okind, oh, orr, ow, ov, oresp, odesc)
 
 def oracle_of(step, is_hs):
@@ -138,6 +252,8 @@ def oracle_of(step, is_hs):
     fb = pre["v"] == 1 and post["v"] == 0
     if post["err"] != NONE and pre["err"] == NONE:
         return ("fbfatal" if fb else "fatal", 0, 0, 0, 0, 0, post["err"])
+    if pre["dt"] and "RESEND " in step.body:
+        return ("rt", 0, 0, 0, 0, 0, 0)       # parseSSLHandshake answered DTLS_RETRANSMIT
     return ("fb" if fb else "ok", post["hs"], int(post["R"]), int(post["W"]), post["v"], resp, 0)
 
 def observed_line(step, is_hs):
@@ -146,8 +262,11 @@ def observed_line(step, is_hs):
     if ob is None:
         ob = ("Handshake:%d" % (1 if step.sent else 0)) if is_hs else "Ignored"
     # once the session is flagged the handshake state is irrelevant (a handler may have moved it before failing)
-    return "%s v=%d hs=%s R=%d W=%d E=%d C=%d eds=%d ig=%d lb=%d" % (ob, post["v"], "-" if post["E"] else str(post["hs"]), post["R"], post["W"], post["E"], post["C"],
+    line = "%s v=%d hs=%s R=%d W=%d E=%d C=%d eds=%d ig=%d lb=%d" % (ob, post["v"], "-" if post["E"] else str(post["hs"]), post["R"], post["W"], post["E"], post["C"],
                                                                       post["edseen"], post["ig"], post["lb"])
+    if post["dt"]:
+        line += " xe=%d pc=%d ax=%d" % (post["xe"], post["pc"], post["ax"])
+    return line
 
 def describe_genuine(step, in_order=True, modified=False):
     """abstract description of a record produced by the honest peer"""
@@ -155,6 +274,13 @@ def describe_genuine(step, in_order=True, modified=False):
     sealed = m["s"] == 1
     d = dict(hdr="ok", outer=m["o"], inner=m["i"] if m["i"] >= 0 else m["o"], l=m["l"])
     d["prot"] = ("good" if (in_order and not modified) else "bad") if sealed else "plain"
+    if "ep" in m:
+        # DTLS: epoch and sequence number are explicit and authenticated, so a genuine record verifies whenever it is presented to the
+        # receiver it was sealed for, in any order and any number of times - only the replay window keeps a copy out (analyse()
+        # turns a copy presented to the OTHER side into Bad: orig_side)
+        d["ep"], d["sq"], d["orig_side"], d["vr"] = m["ep"], m["sq"], step.side, m.get("vr")
+        if sealed:
+            d["prot"] = "bad" if modified else "good"
     if sealed and m.get("e"):
         # 0-RTT data sealed under the client's early traffic key: verifies only at a server that accepted early data
         d["prot"] = "good" if (step.pre["se"] and in_order and not modified) else "bad"
@@ -172,6 +298,12 @@ def describe_genuine(step, in_order=True, modified=False):
 
 def is_hs_record(pre, d):
     """does the record reach the handshake layer's type (for the oracle)? mirrors only the TYPE, not the gate"""
+    if pre["dt"]:
+        if d.get("hdr", "ok") != "ok" or d["outer"] != 22:
+            return False
+        ep, xe = d.get("ep", 0), pre["xe"]
+        accepted = (ep == xe and d.get("replay", "fresh") == "fresh") or (ep > xe and pre["hs"] == 20 and pre["pc"] == 1)
+        return accepted and (not pre["R"] or d["prot"] == "good")
     if pre["v"] == 1:
         if d["outer"] == 20 or (d["outer"] == 21 and d.get("l", 0) < 18):
             return False
@@ -187,9 +319,28 @@ class SessRun:
         self.h = ck.cc("h_sess.c", wraps=WRAPS)
         self.drv = ck.ocaml_driver("drv_sess", extract_vo="Extract/Extract_Sess.vo", gen_ml=["m_sess"])
 
-    def run(self, scripts):
+    def run(self, scripts, workers=4):
         """run all scripts; if the harness process dies on one of them (a crash inside the library), report that script
-        as a violation (the check must not silently lose the scenarios behind it) and carry on with the rest"""
+        as a violation (the check must not silently lose the scenarios behind it) and carry on with the rest.
+        Every script starts with a `new` that resets the library's global state, so scripts are independent of each other:
+        large batches are cut into contiguous chunks that run in parallel harness processes (output order is kept)."""
+        if len(scripts) >= 400 and workers > 1:
+            import concurrent.futures
+            self.ck._model_unlock()      # (run_lines would do it; once, before the threads start)
+            n = (len(scripts) + workers - 1) // workers
+            chunks = [scripts[i:i + n] for i in range(0, len(scripts), n)]
+            with concurrent.futures.ThreadPoolExecutor(max_workers=workers) as ex:
+                parts = list(ex.map(self._run_seq, chunks))
+            outs = [o for part in parts for o in part]
+        else:
+            outs = self._run_seq(scripts)
+        if os.environ.get("VERIF_DEBUG"):
+            with open("/var/tmp/sess-debug-%s-%d.txt" % (self.ck.pid, len(scripts)), "w") as f:
+                for a, b in zip(scripts, outs):
+                    f.write(a + "\n  => " + b + "\n")
+        return outs
+
+    def _run_seq(self, scripts):
         outs, start = [], 0
         while start < len(scripts):
             rc, out, err = self.ck.run_lines(self.h, scripts[start:], timeout=3000)
@@ -204,10 +355,6 @@ class SessRun:
                                    {"harness": "h_sess", "script": scripts[bad], "stderr": err[-1500:]})
             outs = outs[:bad] + ["CRASHED"]
             start = bad + 1
-        if os.environ.get("VERIF_DEBUG"):
-            with open("/var/tmp/sess-debug-%s-%d.txt" % (self.ck.pid, len(scripts)), "w") as f:
-                for a, b in zip(scripts, outs):
-                    f.write(a + "\n  => " + b + "\n")
         return outs
 
     def legal_trace(self, cfg, seed=1, maxrec=40):
@@ -222,6 +369,20 @@ class SessRun:
             for st in parse_steps(seg):
                 seq.append("c2s" if st.side == "s" else "s2c")
         return seq, out
+
+
+def side_states(trace_out, cfg):
+    """receiver states along the legal trace: element k = {"c": snapshot, "s": snapshot} BEFORE the k-th record of the trace is
+    delivered (None until the side has received anything: a fresh session expects epoch 0 with an empty window)"""
+    nprefix = len(newcmd(cfg, 1).split(" ; "))
+    cur = {"c": None, "s": None}
+    states = [dict(cur)]
+    for seg in trace_out.split(" | ")[nprefix:]:
+        for st in parse_steps(seg):
+            if st.post is not None:
+                cur[st.side] = st.post
+            states.append(dict(cur))
+    return states
 
 
 def prefix_script(cfg, seed, trace, k):
@@ -265,11 +426,24 @@ def analyse(ck, sr, scripts, outs, tag, inj_desc):
                     d = dict(dl[inj_i]); inj_i += 1
                     if d.get("outer") == 21 and d["prot"] != "plain" and st.alerts_in:
                         d["lvl"], d["desc"] = st.alerts_in[0]
+                d = dict(d)
+                if d.get("hdr") == "ver?":
+                    d["hdr"] = "ok" if version_tolerant(st.pre) else "ver"
+                if d.get("vr") and d.get("hdr") == "ok" and tuple(d["vr"]) != script_version(scripts[si]) and not version_tolerant(st.pre):
+                    d["hdr"] = "ver"      # e.g. the first ClientHello of a DTLS 1.2 client replayed after DTLS 1.0 was negotiated
+                if st.pre["dt"]:
+                    # the replay window's answer for this sequence number in the receiver's CURRENT window (only meaningful for the
+                    # expected epoch); a sealed genuine record shown to the side that sent it does not verify there
+                    d["replay"] = "fresh" if (d.get("ep", 0) != st.pre["xe"] or win_fresh(st.pre["lr"], st.pre["bm"], d.get("sq", 0))) else "dup"
+                    if st.kind != "step" and d.get("orig_side") not in (None, st.side) and d["prot"] == "good":
+                        d["prot"] = "bad"
                 ishs = is_hs_record(st.pre, d)
                 cases.append(dec_line(st.pre, d, oracle_of(st, ishs)))
                 observed.append(observed_line(st, ishs))
                 back.append((si, st, d))
-                ck.count("%s:%s:%s" % ("13" if st.pre["v"] else "12", st.kind, (observed[-1].split()[0]).split(":")[0]))
+                ck.count("%s:%s:%s" % ("dtls" if st.pre["dt"] else ("13" if st.pre["v"] else "12"), st.kind, (observed[-1].split()[0]).split(":")[0]))
+                if st.pre["dt"]:
+                    ck.count("dtls-record:%s:%s" % ("cur" if d.get("ep", 0) == st.pre["xe"] else ("older" if d.get("ep", 0) < st.pre["xe"] else "newer"), d["replay"]))
     if sr.drv is None:
         return back
     rc, model, err = ck.run_lines(sr.drv, cases)
@@ -290,4 +464,39 @@ def analyse(ck, sr, scripts, outs, tag, inj_desc):
         si, st, d = back[i]
         ck.log("DISAGREE script=%r\n   step=%s %s\n   case=%s\n   impl=%s\n   model=%s" % (scripts[si][:300], st.kind, st.body[:200], cases[i], observed[i], model[i] if i < len(model) else None))
     sr.last_dis = [(back[i], cases[i], observed[i], model[i] if i < len(model) else None) for i in dis]
+    # ---- DTLS: matrixDtlsGetOutdata called with nothing pending (`resend`, the application's retransmission timeout)
+    gcases, gobs = [], []
+    for si, out in enumerate(outs):
+        for r in parse_resends(out):
+            gcases.append("gout %s %d %d %d %d" % (st_fields(r["pre"]), 1 if r["pre"]["ol"] > 0 else 0, r["pre"]["fd"], r["pre"]["rs"], r["pre"]["ca"]))
+            gobs.append(r["observed"])
+            ck.count("dtls-getout:" + r["observed"])
+    if gcases:
+        rc, gmodel, err = ck.run_lines(sr.drv, gcases)
+        gd = ck.correspond(tag + " / DTLS flight resend: dtls_getout(model) vs matrixDtlsGetOutdata(impl)", gcases, gobs, gmodel)
+        for i in gd[:5]:
+            ck.log("DISAGREE getout case=%s impl=%s model=%s" % (gcases[i], gobs[i], gmodel[i] if i < len(gmodel) else None))
     return back
+
+
+RESEND_RE = re.compile(r"resend:([cs]) pre=(\S+) (.*?)post=(\S+)")
+
+def parse_resends(out):
+    """`resend` commands of a script output: pre-state, what matrixDtlsGetOutdata did (none / data / resend / refused)"""
+    res = []
+    for m in RESEND_RE.finditer(out):
+        side, pre, body, post = m.groups()
+        pre = parse_snap(pre)
+        if pre is None or not pre["dt"] or "[resend-skipped]" in body:
+            continue        # (the harness does not follow a retransmission request where the rebuild is known to fault: sess.h dtls_resend_safe)
+        recs = [tuple(int(x) for x in r.split(":")) for r in re.findall(r"(\d+:-?\d+:\d+),", " ".join(re.findall(r"out=\[([^\]]*)\]", body)))]
+        if "[getout:E-12]" in body:
+            ob = "refused"          # PS_PROTOCOL_FAIL: the session is flagged
+        elif "[getout:E" in body:
+            ob = "resend"           # the rebuild was attempted and failed (e.g. the ClientHello writer refusing a flagged session before the C15 repair)
+        elif recs:
+            ob = "data" if pre["ol"] > 0 else "resend"
+        else:
+            ob = "none"
+        res.append({"side": side, "pre": pre, "post": parse_snap(post), "body": body, "observed": ob, "recs": recs})
+    return res
